@@ -632,7 +632,17 @@ def _run(args: argparse.Namespace) -> int:
         run_space_override = True
 
     if args.run_space_max_runs is not None or args.run_space_dry_run:
-        run_space_section = config.setdefault("run_space", {})
+        pipeline_section = config.get("pipeline")
+        if (
+            "run_space" not in config
+            and isinstance(pipeline_section, dict)
+            and isinstance(pipeline_section.get("run_space"), dict)
+        ):
+            # The run space is declared under ``pipeline:``; override that block
+            # instead of shadowing it with a new top-level one
+            run_space_section = pipeline_section["run_space"]
+        else:
+            run_space_section = config.setdefault("run_space", {})
         if not isinstance(run_space_section, dict):
             print("Invalid config: run_space block must be a mapping", file=sys.stderr)
             return EXIT_CONFIG_ERROR
